@@ -1,7 +1,9 @@
 SPECIFICATION Spec
 CONSTANTS
   None = None
-  Subs = {"s1", "s2"}
+  Subs = {s1, s2}
+  s1 = s1
+  s2 = s2
   MaxTx = 3
   MaxFrames = 3
   MaxCycles = 2
@@ -9,6 +11,7 @@ CONSTANTS
   EpochGapRepaired = TRUE
   Mutant = "none"
   Repaired = FALSE
+SYMMETRY SubSymmetry
 INVARIANTS
   Inv_AckedSurvive Inv_PublishedSurvive Inv_RecoverSucceeds Inv_LogAlwaysRecoverable Inv_ScanIsOracle Inv_RecoveredIsCommittedPrefix Inv_NoPartialTransactionVisible Inv_RecoverIdempotent Inv_RetryAfterRecoveryIsDuplicate Inv_ExactlyOnce Inv_LedgerCoexists
 CHECK_DEADLOCK FALSE
